@@ -73,33 +73,36 @@ Next == \/ \E c \in ColNames : AddRead(c)
               \/ \E j \in Cands(cmd) : AddCmd(cmd, <<i, j>>, o) \/ \E k \in Cands(cmd) : AddCmd(cmd, <<i, j, k>>, o)
 Spec == Init /\ [][Next]_vars
 
-\* ---------- evaluation of the graph
-RECURSIVE Val(_, _)
-Val(ns, k) == IF ns[k][1] = "EEMSRead" THEN Ok(Cells(Column(ns[k][3])))
-              ELSE LET ins == [m \in 1..Len(ns[k][3]) |-> Val(ns, ns[k][3][m])] IN
-                   IF \E m \in 1..Len(ins) : ~IsOk(ins[m]) THEN Err("Spec.InputFailed")
-                   ELSE Sem(ns[k][1], ns[k][2], [m \in 1..Len(ins) |-> <<"f", ins[m][2]>>])
-\* data-dependent commands are only defined on data with enough distinct values / a rational standard deviation
+\* ---------- evaluation of the graph, bottom-up: Eval(ns, k) is the sequence of the values of nodes 1..k (BadNode from the first
+\* node on whose preconditions fail: data-dependent commands are only defined on data with enough distinct values / a rational
+\* standard deviation, and every value must stay identifiable from its float)
+BadNode == <<"bad", <<>>>>
 NeedsSpread == {"Normalize", "NormalizeZScore", "CvtToFuzzyZScore", "NormalizeCurveZScore", "CvtToFuzzyCurveZScore", "NormalizeMeanToMid", "CvtToFuzzyMeanToMid"}
 NeedsStd == {"NormalizeZScore", "CvtToFuzzyZScore", "NormalizeCurveZScore", "CvtToFuzzyCurveZScore"}
-\* (evaluated left to right: the value of a node is only computed once its preconditions hold)
-Admissible(ns, k) ==
-    ns[k][1] = "EEMSRead" \/
-    LET in1 == Val(ns, ns[k][3][1]) v == IF IsOk(in1) THEN Valid(in1[2]) ELSE <<>> cmd == ns[k][1] p == ns[k][2] IN
-    /\ \A m \in 1..Len(ns[k][3]) : LET iv == Val(ns, ns[k][3][m]) IN IsOk(iv) /\ Valid(iv[2]) # <<>>
+Pre(node, prev) ==
+    node[1] = "EEMSRead" \/
+    LET cmd == node[1] p == node[2] v == Valid(prev[node[3][1]][2]) IN
+    /\ \A m \in 1..Len(node[3]) : Valid(prev[node[3][m]][2]) # <<>>
     /\ (cmd \in NeedsSpread \/ (cmd = "CvtToFuzzy" /\ ~(Has(p, "TrueThreshold") /\ Has(p, "FalseThreshold"))) => NDistinct(v) >= 2)
     /\ (cmd \in NeedsStd => ~IsMV(VStd(v)))
     /\ (cmd \in {"NormalizeMeanToMid", "CvtToFuzzyMeanToMid"} /\ P(p, "IgnoreZeros") = "True" => NDistinct(SelectSeq(v, LAMBDA c : c # R(0))) >= 2)
-    /\ IsOk(Val(ns, k))
-    /\ Valid(Val(ns, k)[2]) # <<>>
-    /\ \A j \in 1..Len(Val(ns, k)[2]) : Abs(Val(ns, k)[2][j][1]) <= 1000000 /\ Val(ns, k)[2][j][2] <= 20000     \* keeps every value identifiable from its float
-RECURSIVE PrefixAdmissible(_, _)
-PrefixAdmissible(ns, k) == k = 0 \/ (PrefixAdmissible(ns, k - 1) /\ Admissible(ns, k))
-AllAdmissible(ns) == PrefixAdmissible(ns, Len(ns))
+NodeVal(node, prev) == IF node[1] = "EEMSRead" THEN Ok(Cells(Column(node[3])))
+                       ELSE Sem(node[1], node[2], [m \in 1..Len(node[3]) |-> <<"f", prev[node[3][m]][2]>>])
+Post(r) == /\ IsOk(r) /\ Valid(r[2]) # <<>>
+           /\ \A j \in 1..Len(r[2]) : Abs(r[2][j][1]) <= 1000000 /\ r[2][j][2] <= 20000
+RECURSIVE Eval(_, _)
+Eval(ns, k) == IF k = 0 THEN <<>>
+               ELSE LET prev == Eval(ns, k - 1) IN
+                    IF \E j \in 1..Len(prev) : prev[j] = BadNode THEN Append(prev, BadNode)
+                    ELSE IF ~Pre(ns[k], prev) THEN Append(prev, BadNode)
+                    ELSE LET r == NodeVal(ns[k], prev) IN IF Post(r) THEN Append(prev, r) ELSE Append(prev, BadNode)
+AllAdmissible(ns) == LET e == Eval(ns, Len(ns)) IN \A k \in 1..Len(e) : e[k] # BadNode
+Val(ns, k) == Eval(ns, k)[k]
 \* C02 on the definitions: the value of a node is that of its own sub-graph, whatever was added afterwards
-PrefixStable == AllAdmissible(nodes) => \A k \in 1..Len(nodes) : Val(nodes, k) = Val(SubSeq(nodes, 1, k), k)
+PrefixStable == AllAdmissible(nodes) => LET e == Eval(nodes, Len(nodes)) IN \A k \in 1..Len(nodes) : e[k] = Eval(SubSeq(nodes, 1, k), k)[k]
 Report == Len(nodes) = MaxNodes =>
-             PrintT(<<"MODEL", TableId, nodes, AllAdmissible(nodes), IF AllAdmissible(nodes) THEN [k \in 1..Len(nodes) |-> Val(nodes, k)[2]] ELSE <<>>>>)
+             LET e == Eval(nodes, Len(nodes)) ok == \A k \in 1..Len(e) : e[k] # BadNode IN
+             PrintT(<<"MODEL", TableId, nodes, ok, IF ok THEN [k \in 1..Len(nodes) |-> e[k][2]] ELSE <<>>>>)
 \* ---------- every ordered producer / consumer pair (INIT PairInit, no steps): two reads and two fuzzy conversions as a base,
 \* the producer on the base, the consumer on the producer (filled up with base nodes of the right fuzziness)
 Base == << <<"EEMSRead", <<>>, "a">>, <<"EEMSRead", <<>>, "d">>,
@@ -113,6 +116,7 @@ PairInit == \E pc \in Cmds, cc \in Cmds, po \in 1..3, co \in 1..3 :
                /\ (cc \in AnyIn \/ (cc \in FuzzyIn <=> pc \in FuzzyCmds))
                /\ nodes = Base \o <<OnBase(pc, po), OnProducer(cc, co, pc \in FuzzyCmds)>>
 PairNext == FALSE /\ UNCHANGED nodes
-PairReport == PrintT(<<"MODEL", TableId, nodes, AllAdmissible(nodes), IF AllAdmissible(nodes) THEN [k \in 1..Len(nodes) |-> Val(nodes, k)[2]] ELSE <<>>>>)
+PairReport == LET e == Eval(nodes, Len(nodes)) ok == \A k \in 1..Len(e) : e[k] # BadNode IN
+              PrintT(<<"MODEL", TableId, nodes, ok, IF ok THEN [k \in 1..Len(nodes) |-> e[k][2]] ELSE <<>>>>)
 
 =============================================================================
